@@ -23,6 +23,20 @@ def chunked(hists, n):
 
 def run_suites(scratch, suites, jobs=12, mode="hist", harness_env=None, timeout=900):
     """suites: list of (suite name, list of history line lists).  returns per-history results"""
+    # history ids must be unique over the whole run: results are keyed by id, and a verdict that overwrote
+    # another would hide a failure
+    seen_ids = set()
+    for sname, hists in suites:
+        for h in hists:
+            f = h[0].split(" ")
+            hid, n = f[1], 1
+            while hid in seen_ids:
+                n += 1
+                hid = "%s~%s%d" % (f[1], sname, n)
+            seen_ids.add(hid)
+            if hid != f[1]:
+                f[1] = hid
+                h[0] = " ".join(f)
     work = []
     for sname, hists in suites:
         if sname.startswith("odd-"):
@@ -62,6 +76,10 @@ def run_suites(scratch, suites, jobs=12, mode="hist", harness_env=None, timeout=
             for k, v in st.items():
                 if isinstance(v, (int, float)):
                     stats[k] = stats.get(k, 0) + v
+    # every history must have a verdict
+    for hid in by_id:
+        if hid not in results:
+            results[hid] = {"status": "NORESULT", "detail": "no verdict came back for this history"}
     return results, stats, by_id
 
 
